@@ -179,6 +179,8 @@ def _std_upper(name):
             return (1 << (8 * k)) - 1
     if name.startswith("BigEndian::read_u16("):
         return 65535
+    if name.endswith(".msg_length)") and "MessageHeader" in name:
+        return 65535                                # a u16 field of the decoded header
     if name.startswith("common::padding("):
         return 3
     return None
@@ -233,7 +235,14 @@ def _std_contracts():
             n = w.L.lin(((C.short(e[1]),) + tuple(args), ".ok"))
             return [LP.add(n, {1: -1}), LP.add({1: 1}, n, -1), LP.add(w.L.len_lin(args[1]), {1: -1})]
         return []
-    return [(r"<impl stun_rs::Encode for (u16|u32|u64)>::encode$", c_int_enc), (r"<impl stun_rs::Decode<'\w+> for (u16|u32|u64)>::decode$", c_int_dec),
+    def c_header(w, e, args, suffix, variant):
+        # MessageHeader::decode(b) = Ok((_, n)) => n == 20 <= len(b)   (decided by R2.10 / R16.5)
+        if suffix == "" and variant == "Ok":
+            n = w.L.lin(((C.short(e[1]),) + tuple(args), ".ok.1"))
+            return [LP.add(n, {1: -20}), LP.add({1: 20}, n, -1), LP.add(w.L.len_lin(args[0]), {1: -20})]
+        return []
+    return [(r"MessageHeader<'\w+> as stun_rs::Decode<'\w+>>::decode$", c_header),
+            (r"<impl stun_rs::Encode for (u16|u32|u64)>::encode$", c_int_enc), (r"<impl stun_rs::Decode<'\w+> for (u16|u32|u64)>::decode$", c_int_dec),
             (r"<stun_rs::(types::AddressFamily|protocols::ProtocolNumber) as stun_rs::Encode>::encode$", c_fixed1),
             (r"common::check_buffer_boundaries$", c_cbb), (r"common::fill_padding_value$", c_cbb),
             (r"slice::<impl \[.*\]>::get(::<.*>)?$", c_get),
